@@ -204,4 +204,39 @@ def genRow (g : Gram) (a : Auto) (t : LATab) (q : Nat) : Array Int :=
     | none => err
     | some w => if w.ty == 2 then err else if w.idx != 0 then w.idx else acc
 
+/-- the candidate actions of state `q`, in the order `CheckAndResolveConflict` sees them -/
+def cands (g : Gram) (a : Auto) (t : LATab) (q : Nat) : List (Nat × Action) :=
+  let shifts : List (Nat × Action) := (a.gotos[q]!).map fun (x, p) => (x, ⟨0, p, g.assoc[x]!, g.prec[x]!⟩)
+  let reduces : List (Nat × Action) := (a.states[q]!).foldl (fun l it =>
+    match g.rules[it.1]? with
+    | some r =>
+      if it.2 == r.rhs.size then
+        let ps : Int := r.precSym
+        let (pt, pr) : Int × Int := if ps < 0 then (2, -1) else (g.assoc[ps.toNat]!, g.prec[ps.toNat]!)
+        l ++ (laGet t q it).map fun s => (s, (⟨1, -(it.1 : Int), pt, pr⟩ : Action))
+      else l
+    | none => l) []
+  shifts ++ reduces
+
+/-- warnings printed while folding one cell: the action types of each pair that precedence cannot resolve -/
+def cellWarnings : List Action → List (Int × Int)
+  | [] => []
+  | a :: rest =>
+    (rest.foldl (fun (st : Action × List (Int × Int)) b =>
+      match resolveConflict st.1 b with
+      | some x => (x, st.2)
+      | none => (useDefault st.1 b, st.2 ++ [(st.1.ty, b.ty)])) (a, [])).2
+
+/-- all warnings of state `q`: (symbol, type of first, type of second) -/
+def stateWarnings (g : Gram) (a : Auto) (t : LATab) (q : Nat) : List (Nat × Int × Int) :=
+  let cs := cands g a t q
+  (List.range g.nSyms).flatMap fun s =>
+    (cellWarnings ((cs.filter (·.1 == s)).map (·.2))).map fun (x, y) => (s, x, y)
+
+/-- number of candidate actions per cell; the grammar is LALR(1) iff no cell has two -/
+def maxCands (g : Gram) (a : Auto) (t : LATab) : Nat :=
+  (List.range a.states.size).foldl (fun m q =>
+    let cs := cands g a t q
+    (List.range g.nSyms).foldl (fun m s => max m (cs.filter (·.1 == s)).length) m) 0
+
 end Core
